@@ -386,6 +386,15 @@ empty @is_you(int a, byte b) { write(f(a)); write(' '); write(@f(a)); write(' ')
   int[] arr = [a, 5, 9 - a]; g(arr); @g(arr); try { !g(arr); write('m'); } stop { write('s'); } write(f(a) + @f(a)); }''', [['3', '1'], ['0', '2'], ['7', '255']]),
 ]
 
+MISC += [
+    # conditions, bounds and expression statements whose only point is their effect: bodies empty, values unused
+    ('effects_only', '''int g = 0; int[] GA = [1, 2, 3];
+bool side(bool r) { g += 1; write('s'); return r; } int bump() { g += 10; write('b'); return g; }
+empty @is_you(int a) { if (side(true)) { } if (side(false)) { } else { } if (side(a > 0)) { ; } while (side(false)) { } for (; side(false);) { } for (int i = bump(); i < 0; i += 1) { }
+  bump(); side(true); g + 1; bump() + 1; [bump(), 2]; [bump(), 3][0]; GA[bump() % 3]; (bump() > 0) and side(false); side(true) or side(true); -bump(); bump() is byte; "str"; GA.length; g ?? bump();
+  if (a > 0) { } else { write('e'); } { } write(g); }''', [['1'], ['0']]),
+]
+
 # ------------------------------------------------------------------------------------------------ large and unusual shapes
 def large_shapes():
     """legal programs a generator rarely writes: frames beyond 255 bytes, nine parameters, arrays of 250 elements, literals of
